@@ -270,7 +270,7 @@ CONC_E1 = ["counter_pulls", "counter_3t", "ticket_pulls", "ticket_3t"]
 PLANS = {
     "C01": dict(e1=CONC_E1 + ["counter_comp", "ticket_comp"], inv=["Inv_C01"], bundles=["core"]),
     "C02": dict(e1=CONC_E1 + ["counter_comp", "ticket_comp"], inv=["Inv_C02", "Inv_TicketIsPosition"], bundles=["core"]),
-    "C03": dict(e1=CONC_E1 + ["ticket_owner"], inv=["Inv_C03"], bundles=["core"]),
+    "C03": dict(e1=CONC_E1 + ["ticket_owner"], inv=["Inv_C03"], bundles=["core"], zst=True),
     "C04": dict(e1=CONC_E1 + ["counter_skipq"], inv=["Inv_C04"], bundles=["core"]),
     "C05": dict(e1=CONC_E1 + ["counter_skipq", "ticket_skip", "ticket_query", "ticket_revive"], inv=["Inv_C05", "Inv_NoWrap"], bundles=["core"], revive=True),
     "C06": dict(e1=["counter_skipq", "counter_3t", "counter_range", "ticket_skip", "ticket_3t", "ticket_owner"],
@@ -369,7 +369,9 @@ def decide(pid, tier, seed, t0):
         only = plan.get("only")
         runs = b["runs"]
         # runs with a non-fused source are judged only by the properties that say something about them
-        rel = {rid for rid, f in runs.items() if (only is None or only(f)) and (f["suite"] != "revive" or plan.get("revive"))}
+        # likewise runs over zero-sized elements (no identity: only the shape of chunks is meaningful)
+        rel = {rid for rid, f in runs.items() if (only is None or only(f)) and (f["suite"] != "revive" or plan.get("revive"))
+               and (f["suite"] != "zst_seq" or plan.get("zst"))}
         relevant += len(rel)
         nontrivial += sum(1 for rid in rel if runs[rid]["overlap"] or runs[rid]["nthreads"] == 0)
         vio = list(b["viol"].get("TraceProps", []))
